@@ -43,8 +43,10 @@ def rand_history(rng: random.Random, n: int):
         stateful = [la, "L2", "O1", r]
         if x < 0.22:
             calls.append(["net_step", "", par(), rng.choice(["O0", "O0", "O1"]), ""])
-        elif x < 0.40:
+        elif x < 0.37:
             calls.append(["init", rng.choice(innet), ""])
+        elif x < 0.40:
+            calls.append(["net_step_fail", ""])     # a whole-network step that fails part-way (no sampling time)
         elif x < 0.46:
             calls.append(["init_all", ""])
         elif x < 0.72:
